@@ -509,6 +509,10 @@ impl QueryRouter {
 
     /// Try to infer which server to connect to based on the contents of the query.
     pub fn infer(&mut self, ast: &Vec<sqlparser::ast::Statement>) -> Result<(), Error> {
+        // Key positions recorded for a statement that was parsed but never bound
+        // (Parse, Describe, Sync) say nothing about this one.
+        self.placeholders.clear();
+
         if !self.pool_settings.query_parser_read_write_splitting {
             return Ok(()); // Nothing to do
         }
